@@ -486,7 +486,7 @@ func semanticCases(tr *Trace, p *poolProc, control *rawWS, ctl *int, rng *rand.R
 		big[i].ID = fmt.Sprintf("%0128x", i)
 	}
 	cases = append(cases, sem{"signed", "vipnode_update", signed("vipnode_update", me.nodeID, false, pool.UpdateRequest{PeerInfo: big})})
-	for _, num := range []int{-3, -1, 0, 1, 1 << 30, -1 << 31} {
+	for _, num := range []int{-3, -1, 0, 1, 1 << 30, -1 << 31, 1<<31 - 1, 1 << 32, 1<<63 - 1, 1<<63 - 2, -1 << 63, 1 << 62} {
 		cases = append(cases, sem{"signed", "vipnode_peer", signed("vipnode_peer", me.nodeID, false, pool.PeerRequest{Num: num, Kind: filler(rng)})})
 		cases = append(cases, sem{"signed", "vipnode_client", signed("vipnode_client", me.nodeID, false, pool.ClientRequest{NumHosts: num, Kind: filler(rng)})})
 	}
